@@ -214,6 +214,35 @@ where
                     }
                 }
             }
+            // ---- the same instance goes on to prove polynomials of OTHER sizes (the options fix the schedule rule, not the
+            // domain: remainder and layer sizes differ from proof to proof): half, double, a quarter, and back
+            let mut walk: Vec<usize> = vec![cfg.n / 2, cfg.n * 2, cfg.n / 4, cfg.n * 4, cfg.n];
+            walk.retain(|m| *m >= 8 && *m <= 2048);
+            for m in walk {
+                let c2 = Cfg { n: m, ..cfg };
+                if !(c2.well_formed() && c2.n > c2.blowup) {
+                    continue;
+                }
+                let d2 = c2.max_poly_degree();
+                let w2 = glue::root_of_unity::<E::BaseField>(m.ilog2());
+                let poly: Vec<El> = (0..=d2).map(|_| rand_el(&mut rng, &ctx)).collect();
+                let evals_ref: Vec<El> = (0..m).map(|i| ctx.poly_eval(&poly, &[mulm(off, powm(w2, i as u128, p), p), 0, 0])).collect();
+                let evals: Vec<E> = from_refs(&evals_ref);
+                let pos = vec![m - 2, 0, m / 2, 1, m / 2 + 1, m - 1];
+                out.evals(1);
+                let info = || json!({"field/hasher": nm, "first_config": format!("{:?}", cfg), "then_config": format!("{:?}", c2), "what": "one prover instance reused for a polynomial of another size"});
+                match pan::catch(|| run_proof::<E, H>(&mut prover, &c2, &evals, &pos, true)) {
+                    Ok(Ok(())) => {
+                        out.nontrivial();
+                        out.class("prover instance reused for another domain size");
+                    },
+                    Ok(Err(e)) => out.violation(format!("{nm}: a reused prover instance produces a proof that is not accepted ({})", squeeze(&e)), info()),
+                    Err(pr) => {
+                        out.violation(format!("{nm}: a reused prover instance panics on a polynomial of another size ({})", pr.class()), info());
+                        prover.reset();
+                    },
+                }
+            }
         },
         move |idx| json!({"config": format!("{:?}", cc2[idx as usize]), "inner": "5 polynomials x 4 query lists x {direct, after serialization}, one prover instance reused"}),
     ));
